@@ -170,6 +170,24 @@ func step(ctx context.Context, e execer, kind string, lit bool) (o outcome) {
 		}
 		a, _ := r.RowsAffected()
 		return outcome{fmt.Sprintf("aff=%d", a), ""}
+	case "prepx":
+		// a statement prepared in one context and executed in another (a statement cache filled inside a global
+		// transaction and used by plain code later): what counts is the context of the execution
+		st, err := e.PrepareContext(ctx, "UPDATE t_int SET w1 = ? WHERE id = ?")
+		if err != nil {
+			return outcome{"", "prepare-" + errClass(err)}
+		}
+		defer st.Close()
+		xctx := ctx
+		if _, inTx := e.(*sql.Tx); !inTx {
+			xctx = context.Background()
+		}
+		r, err := st.ExecContext(xctx, int64(19), int64(1))
+		if err != nil {
+			return outcome{"", errClass(err)}
+		}
+		a, _ := r.RowsAffected()
+		return outcome{fmt.Sprintf("aff=%d", a), ""}
 	case "prepq":
 		st, err := e.PrepareContext(ctx, "SELECT id, w1 FROM t_int WHERE id = ?")
 		if err != nil {
